@@ -458,6 +458,9 @@ def soil_evaporation(
                 W = 1000 * NewCond_th[comp] * prof.dz[comp]
                 # Water available in compartment for extraction (mm)
                 AvW = (W - Wdry) * factor
+                if AvW < 0:
+                    AvW = 0
+
                 if AvW >= ToExtractStg2:
                     # Update actual evaporation
                     EsAct = EsAct + ToExtractStg2
